@@ -155,6 +155,25 @@ func runHistoryOnce(args []string) []string {
 				out = append(out, outcome, d)
 				prev = d
 			}
+		case "dg6":
+			// a datagram from a (non IPv4-mapped) IPv6 source: the reporter socket is dual-stack
+			if len(op) != 4 {
+				return []string{"bad-op"}
+			}
+			ip := net.ParseIP(op[1])
+			port, err := strconv.Atoi(op[2])
+			payload, err2 := core.UnHex(op[3])
+			if ip == nil || ip.To4() != nil || err != nil || err2 != nil {
+				return []string{"bad-op"}
+			}
+			outcome := Send(p, ip, port, payload)
+			d := JoinDump(w.Dump())
+			if d == prev {
+				out = append(out, outcome, "=")
+			} else {
+				out = append(out, outcome, d)
+				prev = d
+			}
 		case "uc":
 			// a use case of another component run to completion in between (ucops.Client spec)
 			if len(op) != 2 {
@@ -176,6 +195,10 @@ func runHistoryOnce(args []string) []string {
 		return []string{"empty"}
 	}
 	return out
+}
+
+func Dg6(ip string, port int, payload []byte) []string {
+	return []string{"dg6", ip, fmt.Sprint(port), core.Hex(payload)}
 }
 
 func Dg(ip string, port int, payload []byte) []string {
